@@ -23,7 +23,7 @@ EXTRA = {  # further registered checks worth running for a change (it may break 
     'C17-1': ['C04'], 'C17-2': ['C04'], 'C17-3': ['C06', 'C02'],
     'C02-6': ['C04'], 'C04-6': ['C16'], 'C05-4': ['C01'], 'C05-6': ['C06'], 'C16-6': ['C06'],
     'C01-5': ['C04'], 'C01-6': ['C08'], 'C03-5': ['C06', 'C02'], 'C06-4': ['C02'], 'C06-5': ['C02'], 'C06-6': ['C02'], 'C08-4': ['C07'], 'C09-4': ['C08'],
-    'C07-4': ['C08'], 'C10-4': ['C11'], 'C11-4': ['C14'],
+    'C07-4': ['C08'], 'C10-4': ['C11'], 'C11-4': ['C14'], 'C01-7': ['C04'], 'C06-7': ['C02'], 'C16-7': ['C05'],
     'C10-2': ['C11'], 'C11-1': ['C10'], 'C11-2': ['C10'], 'C11-3': ['C14'], 'C14-1': ['C10'],
 }
 REGISTERED = {c['property_id'] for c in json.load(open('/verif/MANIFEST.json'))['checks']}
